@@ -153,6 +153,8 @@ def gen_table(g: G, name: str, force_cols: Optional[List[str]] = None):
     for n in names:
         t = S.NAME_TYPE[n]
         nullable = t in ("float", "str") and g.boolean()
+        if cfg.get("force_cols_nullable") and n in (force_cols or []) and t in ("float", "str"):
+            nullable = True
         cols.append([n, t, nullable])
     max_rows = cfg.get("max_rows", 7)
     nrows = g.pick([0, 1, 1, 2, 3, 4, 5, max_rows, max_rows])
